@@ -754,6 +754,7 @@ def _gen_pitch(octave):
 
 
 def explore(ctx):
+    ctx.use_thorough_bounds('thorough bounds take a few seconds')
     names = P.names(2)
     octaves = list(range(0, 10))
     ctx.bound("names", "7 letters x accidental strings of length <= 2 (49)")
